@@ -64,21 +64,20 @@ class Mismatch(Exception):
 def compare(model, pkgflat, design, top_mid):
     """Returns (ok, details).  details: list of difference strings (empty when ok);
     raises nothing for ordinary differences."""
-    try:
-        alts = _alternatives(model, pkgflat)
-    except Mismatch as e:
-        return False, [str(e)]
     first = None
     n = 0
-    for mapping in alts:
-        n += 1
-        diffs = _compare_with(model, pkgflat, mapping)
-        if not diffs:
-            return True, []
-        if first is None:
-            first = diffs
-        if n >= MAX_ALTERNATIVES:
-            return None, ["too many naming alternatives; inconclusive"] + first
+    try:
+        for mapping in _alternatives(model, pkgflat):
+            n += 1
+            diffs = _compare_with(model, pkgflat, mapping)
+            if not diffs:
+                return True, []
+            if first is None:
+                first = diffs
+            if n >= MAX_ALTERNATIVES:
+                return None, ["too many naming alternatives; inconclusive"] + first
+    except Mismatch as e:
+        return False, [str(e)]
     if first is None:
         return None, ["no consistent naming found within the enumeration budget; inconclusive"]
     return False, first
